@@ -148,11 +148,12 @@ Definition s_with_leaf (s : st) (p : path) (k : nat -> string -> option nat -> s
 Definition readable (fl : oflags) : bool := match f_acc fl with AWr => false | _ => true end.
 Definition writable (fl : oflags) : bool := match f_acc fl with ARd => false | _ => true end.
 
-Definition s_enter_new (s : st) (pi : nat) (nm : string) (c : option nat) (mk : list node -> list node) : st * out :=
-  match c with
-  | Some _ => (s, OErr EExist)
-  | None => if is_dir (heap s) pi then (seth s (mk (heap s)), OOk) else (s, OErr EOther)
-  end.
+Definition s_enter_new (s : st) (pi : nat) (c : option nat) (mk : list node -> list node) : st * out :=
+  if negb (is_dir (heap s) pi) then (s, OErr EOther)                          (* ENOTDIR *)
+  else match c with
+       | Some _ => (s, OErr EExist)
+       | None => (seth s (mk (heap s)), OOk)
+       end.
 
 Definition spec_raw (s : st) (o : op) : st * out :=
   match o with
@@ -228,17 +229,18 @@ Definition spec_raw (s : st) (o : op) : st * out :=
       match s_lnode (heap s) p with inr e => (s, OErr e) | inl i => (s, info_of (get (heap s) i)) end
   | Symlink tgt p =>
       s_with_leaf s p (fun pi nm c =>
-        s_enter_new s pi nm c (fun h => fst (create h pi nm (mkNode KSym 511%N 0%Z 0%Z [] None tgt 0%N [] []))))
+        s_enter_new s pi c (fun h => fst (create h pi nm (mkNode KSym 511%N 0%Z 0%Z [] None tgt 0%N [] []))))
   | Mknod p perm dev =>
       s_with_leaf s p (fun pi nm c =>
-        s_enter_new s pi nm c (fun h => fst (create h pi nm (mkNode KDev perm 0%Z 0%Z [] None [] dev [] []))))
+        s_enter_new s pi c (fun h => fst (create h pi nm (mkNode KDev perm 0%Z 0%Z [] None [] dev [] []))))
   | Link old new =>
       s_with_leaf s new (fun pi nm c =>
-        match s_node (heap s) old with
-        | inr e => (s, OErr e)
-        | inl t => if is_dir (heap s) t then (s, OErr EOther)                 (* EPERM *)
-                   else s_enter_new s pi nm c (fun h => add_child h pi nm t)
-        end)
+        if negb (is_dir (heap s) pi) then (s, OErr EOther)                    (* ENOTDIR *)
+        else match s_node (heap s) old with
+             | inr e => (s, OErr e)
+             | inl t => if is_dir (heap s) t then (s, OErr EOther)            (* EPERM *)
+                        else s_enter_new s pi c (fun h => add_child h pi nm t)
+             end)
   | Readlink p =>
       s_with_leaf s p (fun pi nm c =>
         match c with
@@ -360,15 +362,22 @@ Definition node_corner (b : backend) (h : list node) (p : path) : list (bool * s
     (negb (match m, r with inr ENotExist, inr EOther => true | _, _ => false end), t_prefix);
     (eres_nat_eqb m r, t_link) ].
 (* Dir/Base + getNode(parent) against the reference *)
-Definition leaf_corner (b : backend) (h : list node) (p : path) (panics : bool) : list (bool * string) :=
+(* [chk]: the operation tests "parent is a directory" itself (Mkdir, and since
+   fix ba6ef02 Symlink / Mknod / Link); then a non-directory parent is answered
+   like the reference (ENOTDIR) although the lookups differ *)
+Definition leaf_nondir_parent (h : list node) (m r : eres (nat * string * option nat)) : bool :=
+  match m, r with
+  | inl (pi, _, _), inr EOther => negb (is_dir h pi)
+  | _, _ => false
+  end.
+Definition leaf_corner (b : backend) (h : list node) (p : path) (chk : bool) : list (bool * string) :=
   let m := m_leaf b h p in let r := s_leaf h p in
   [ (clean_leaf_path p, t_path);
-    (negb (match m with inl (pi, _, _) => negb (is_dir h pi) && panics | _ => false end), "nil-children-map-panic");
     (negb (match m, r with
            | inr ENotExist, inr EOther => true
-           | inl (pi, _, _), inr EOther => negb (is_dir h pi)
-           | _, _ => false end), t_prefix);
-    (leaf_eqb m r, t_link) ].
+           | _, _ => negb chk && leaf_nondir_parent h m r
+           end), t_prefix);
+    (leaf_eqb m r || (chk && leaf_nondir_parent h m r), t_link) ].
 Definition open_corner (b : backend) (h : list node) (p : path) (fl : oflags) (perm : N) : list (bool * string) :=
   let m := open_at b (openfile_depth b) h p fl perm in let r := s_open h p fl perm in
   [ (clean_leaf_path p || (is_root_path p && negb (f_creat fl)), t_path);
@@ -390,7 +399,7 @@ Definition mkdirall_eqb (a b : list node * option eclass) : bool :=
 Definition corners (b : backend) (s : st) (o : op) : list (bool * string) :=
   let h := heap s in
   match o with
-  | Mkdir p _ => leaf_corner b h p false
+  | Mkdir p _ => leaf_corner b h p true
   | MkdirAll p perm =>
       let m := mkdirall_loop b h p 0 [] perm in let r := s_mkdirall h [0] p perm in
       [ (clean_path p, t_path);
@@ -412,19 +421,13 @@ Definition corners (b : backend) (s : st) (o : op) : list (bool * string) :=
       handle_corner s i (fun hd =>
         [ (readable (h_fl hd), "open-mode-not-enforced");
           (negb (is_dir h (h_ino hd)), "open-directory");
-          (negb (off <? 0)%Z, "negative-offset-panic");
           (negb (Nat.eqb n 0 && (off >=? blen (n_data (get h (h_ino hd))))%Z), "zero-length-read-at-eof-reports-eof") ])
   | Write i _ =>
       handle_corner s i (fun hd =>
         [ (writable (h_fl hd), "open-mode-not-enforced");
           (negb (h_off hd <? 0)%Z, "negative-offset-panic");
           (negb (f_app (h_fl hd)) || (h_off hd =? blen (n_data (get h (h_ino hd))))%Z, "append-offset-fixed-at-open") ])
-  | Seek i off wh =>
-      handle_corner s i (fun hd =>
-        [ (negb (match wh with
-                 | 0 => (off <? 0)%Z | 1 => (h_off hd + off <? 0)%Z
-                 | 2 => (blen (n_data (get h (h_ino hd))) + off <? 0)%Z | _ => false end),
-           "negative-seek-accepted") ])
+  | Seek _ _ _ => []
   | Close _ => []
   | ReadDir p | Stat p | Chmod p _ | Chown p _ _ | Chtimes p _ => node_corner b h p
   | Lstat p =>
